@@ -83,7 +83,8 @@ def showWorld (w : World) : String :=
     "K " ++ showList showClient w.clients,
     "Q " ++ showQueue w.queue,
     -- (the warning for a close of an unknown market is a log line, not an observable event)
-    "E " ++ showList showEv (w.out.filter fun e => match e with | .warnNoMarket _ => false | _ => true)]
+    "E " ++ showList showEv (w.out.filter fun e => match e with | .warnNoMarket _ => false | _ => true),
+    "F " ++ toString w.foreign]
 
 def parseRunner? (s : String) : Option Runner :=
   match s.splitOn "~" with
